@@ -64,3 +64,19 @@ Print Assumptions C10_no_prime_above_maxprime.
 Theorem C10_largest_prime_reduced : prime MAXPRIME64 -> largest_prime_hyp.
 Proof. exact largest_prime_reduced. Qed.
 Print Assumptions C10_largest_prime_reduced.
+
+(** the largest prime below 2^64: 18446744073709551557 is prime - a Pocklington certificate chain
+    (18446744073709551557 - 1 = 2^2 * 11 * 137 * 547 * 5594472617641, 5594472617641 - 1 = 2^3 * 3 * 5 * 1427 * 2131 * 15331)
+    checked in Coq (Proofs/PockCore.v: Pocklington's criterion proved with mathcomp; PockBridge.v: fast modular powers on Z;
+    PockCert.v: the certificates) - and no prime lies above it below 2^64: [largest_prime_hyp] is a theorem *)
+From PS Require Import Proofs.PockCert Proofs.TopFinalP.
+Theorem C10_maxprime64_is_prime : prime MAXPRIME64.
+Proof. exact prime_MAXPRIME64. Qed.
+Print Assumptions C10_maxprime64_is_prime.
+Theorem C10_largest_prime_proved : largest_prime_hyp.
+Proof. exact largest_prime_proved. Qed.
+Print Assumptions C10_largest_prime_proved.
+Theorem C10_next_after_largest_proved : forall h c' r,
+  cursor_step (MAXPRIME64 + 1, h) Next c' r -> r = Err /\ c' = (MAXPRIME64 + 1, h).
+Proof. exact next_after_largest_proved. Qed.
+Print Assumptions C10_next_after_largest_proved.
